@@ -68,6 +68,27 @@ CLAIMED["C04"] = (
     "DESIGN.md 3 C04",
 )
 
+CLAIMED["C01"] = (
+    SMT + " for the big-integer extension codec; " + XH + " for slot order/defaults, address family, typed lists, nested and grouped records over a tree-level msgpack model",
+    "The repo-side codec layer of the stream round trip is decided per kernel: unpack(pack(v)) == v for every integer of up to 136 bits (520 thorough) by SMT "
+    "queries generated from the AST of pack_obj/unpack_obj (one path per bit length); slot-wise identity of _unpack(_pack()) for all carrier values under both "
+    "generated class templates; address family and integer for all 2^32 IPv4 and 2^128 IPv6 addresses; typed lists; nested, record[] and grouped records through "
+    "the real pack_obj/unpack_obj/register; path/command flavour and digest members. Bounded model checking fits because each kernel is integer/structure logic "
+    "with rare boundary inputs (2^63/2^64 hand-over, 2^32 address boundary).",
+    "Trusted: msgpack's byte-level fidelity for its native types (the tree-level model is validated against the real msgpack on every run), pathlib/shlex "
+    "normalisation, stdlib ipaddress text rendering. Outside: timestamps (C13), value contents beyond the flavour table.",
+    "DESIGN.md 3 C01",
+)
+CLAIMED["C02"] = (
+    SMT + " (length prefix, varint payload, descriptor identifier with sha256 uninterpreted); " + XH + " for the ext-type trees against an independent reference model (spec/wire.py)",
+    "The layers of the wire format that are repo-side Python are compared with an independent reference model for all inputs within the bounds: the 4-byte prefix "
+    "for every length < 2^32, the big-integer payload for every bit length, the identifier's hash input and byte extraction for unbounded strings and arbitrary "
+    "digests, and the trees handed to / accepted from msgpack (record, descriptor, grouped, big integer; extra reserved values, missing version) for all carrier values. "
+    "Side conditions (constants, msgpack options, one byte-level battery in both directions against the reference codec) are concrete and reported as such.",
+    "Trusted: spec/wire.py as the published format; msgpack's byte-level encoding. Outside: a golden corpus of archived streams (example testing).",
+    "DESIGN.md 3 C02",
+)
+
 NOT_APPLICABLE = {
     "C13": "every operation the property constrains (datetime construction/arithmetic, fromisoformat, zoneinfo, fastavro/sqlite3 conversions) is C code; "
     "CrossHair realises each datetime component at the C constructor and the repo-side logic is two value-free ifs, so no value-level case would be decided by the solver (DESIGN.md 6)",
